@@ -151,8 +151,16 @@ def correspondence(ctx):
         supplied = min(total, sum(chunks))
         pl = rng.choice([-1, supplied, supplied, supplied + 1, max(0, supplied - 1), 0, 2 * supplied + 3, supplied + (1 << 32), supplied + 3 * (1 << 32), supplied + (1 << 31)])
         pl_lines.append("pledge %d %d %s %d" % (pl, total, ",".join(map(str, chunks)), mode)); pl_info.append((pl, supplied, chunks, mode))
+    # the same with worker threads and frames made of several jobs (each worker only sees its own job)
+    for _ in range(24 if ctx.quick() else 300):
+        total = rng.choice([700000, 1600000, 3000000])
+        chunks = [rng.choice([300000, 524288, 1000000, total]) for _ in range(rng.randint(2, 5))]
+        mode = rng.randint(0, 2)
+        supplied = min(total, sum(chunks))
+        pl = rng.choice([supplied, supplied + 1, supplied - 1, supplied // 2, 2 * supplied, -1])
+        pl_lines.append("pledge %d %d %s %d %d" % (pl, total, ",".join(map(str, chunks)), mode, rng.choice([1, 2, 3]))); pl_info.append((pl, supplied, chunks, mode))
     cres = frames.run_lines(exe, pl_lines)[1]
-    mres = frames.model_lines(pl_lines)
+    mres = frames.model_lines([" ".join(l.split()[:5]) for l in pl_lines])
     for ln, c, m, (pl, supplied, chunks, mode) in zip(pl_lines, cres, mres, pl_info):
         ev += 1
         cok, mok = c.startswith("ok"), m.startswith("ok")
